@@ -226,6 +226,7 @@ def main(ctx):
     ctx.require("scram-argon2:welcome_accepted")
     ctx.require("scram_reuse_steps")
     ctx.require("scram_reuse_stale_rejected")
+    ctx.require("scram_welcome_without_challenge")
     ctx.require("scram-argon2:welcome_rejected", 256)
     ctx.require("scram-pbkdf2:cases")
     if c["scram-pbkdf2:on_challenge_raised"] < c["scram-pbkdf2:cases"]:
@@ -383,6 +384,35 @@ def _scram_reuse(o, R, auth, a):
                 o.bad("C19|%s|reuse|correct-signature-rejected" % mech, "%s: on_welcome -> %r" % (what, r), ra)
                 break
             prev_key = cred["server_key"]
+    # ---- a WELCOME that was not preceded by a CHALLENGE (router skips the challenge): there is no
+    # exchange the client could verify a server signature against, so NO signature may be accepted -
+    # in particular not the constants computable without the password
+    import hashlib
+    import hmac as _hmac
+    empty_key = _hmac.new(b"", b"Server Key", hashlib.sha256).digest()
+    candidates = {
+        "hmac-of-empty": _hmac.new(empty_key, b"", hashlib.sha256).digest(),
+        "zeros": bytes(32),
+        "empty": b"",
+        "hmac-empty-key-empty-msg": _hmac.new(b"", b"", hashlib.sha256).digest(),
+        "ones": b"\xff" * 32,
+    }
+    for name, sig in candidates.items():
+        n = [0]
+        auth.os = _NS(urandom=lambda k: (n.__setitem__(0, n[0] + 1), bytes([n[0] & 0xFF]) * k)[1])
+        au = auth.create_authenticator("scram", authid=authid, password=password)
+        au.authextra
+        o.evals += 1
+        o.stats["scram_welcome_without_challenge"] += 1
+        try:
+            r = au.on_welcome(sess, {"scram_server_signature": R.b64(sig)})
+        except Exception:
+            r = "raised"
+        if r is None:
+            o.bad("C19|scram|welcome-without-challenge|accepted",
+                  "on_welcome() accepted server signature %r (%s) although no CHALLENGE had been "
+                  "processed: a router that does not know the password could make the client join" % (
+                      R.b64(sig), name), dict(a))
 
 
 def replay(a):
